@@ -1,5 +1,6 @@
 import ScVerif.C11.LocksetLemmas
 import ScVerif.C11.Trace
+import ScVerif.C11.Chan
 /-!
 C11 — property theorems (claim level: **partial**, see props/C11.json).
 
@@ -90,6 +91,38 @@ example : ∃ st₁ st₂, run [] [Ev.acq 1 0 .shared] = some st₁ ∧
     run st₁ [Ev.acc 1 0, Ev.rel 1 0, Ev.acc 3 9, Ev.acq 2 0 .excl] = some st₂ ∧
     (1, 0, LMode.shared) ∈ st₁ ∧ (2, 0, LMode.excl) ∈ st₂ :=
   ⟨[(1, 0, .shared)], [(2, 0, .excl)], by decide, by decide, by decide, by decide⟩
+
+/-- Why a channel-close edge orders (`Chan.lean`: a channel is closed at most once and is observed
+closed only after that): in EVERY execution in which goroutine `t₁` performs `a` and afterwards closes
+the channels the table lists in `a.relAfter`, and goroutine `t₂` performs `b` after having observed
+closed the channels the table lists in `b.acqBefore`, with `closeEdge a b`, the execution runs
+access `a` … `close(c)` by `t₁` … observation of `c` by `t₂` … access `b` for a common channel `c`
+(the close→observe arrow is the Go memory model's guarantee for channels, assumed). -/
+theorem C11_close_edge_orders {a b : Access} (hce : closeEdge a b)
+    {es x y u w : List CEv} {st : CState} {t₁ t₂ ia ib : Nat} (hrun : crun [] es = some st)
+    (hax : es = x ++ CEv.acc t₁ ia :: y)
+    (hrel : ∀ c ∈ a.relAfter, ∃ y₁ y₂, y = y₁ ++ CEv.close t₁ c :: y₂)
+    (hbx : es = u ++ CEv.acc t₂ ib :: w)
+    (hacq : ∀ c ∈ b.acqBefore, ∃ u₁ u₂, u = u₁ ++ CEv.obs t₂ c :: u₂) :
+    ∃ c m₁ m₂ m₃, es = x ++ CEv.acc t₁ ia ::
+      (m₁ ++ CEv.close t₁ c :: (m₂ ++ CEv.obs t₂ c :: (m₃ ++ CEv.acc t₂ ib :: w))) := by
+  obtain ⟨c, hca, hcb⟩ := hce
+  obtain ⟨y₁, y₂, hy⟩ := hrel c hca
+  obtain ⟨u₁, u₂, hu⟩ := hacq c hcb
+  have hobs : es = u₁ ++ CEv.obs t₂ c :: (u₂ ++ CEv.acc t₂ ib :: w) := by
+    rw [hbx, hu]; simp
+  have hclose : es = (x ++ CEv.acc t₁ ia :: y₁) ++ CEv.close t₁ c :: y₂ := by
+    rw [hax, hy]; simp
+  obtain ⟨m, hm⟩ := close_before_obs hrun hobs hclose
+  exact ⟨c, y₁, m, u₂, by rw [hobs, hm]; simp⟩
+
+/-- the hypotheses are satisfiable: the shape of `ClientServerStream`: write, close(headerC) on the
+server goroutine; wait for headerC, read on the client goroutine -/
+example : crun [] [CEv.acc 1 0, CEv.close 1 7, CEv.obs 2 7, CEv.acc 2 1] = some [7] := by decide
+
+/-- …and observing before the close, or closing twice, is not an execution -/
+example : crun [] [CEv.obs 2 7, CEv.close 1 7] = none ∧ crun [] [CEv.close 1 7, CEv.close 2 7] = none := by
+  decide
 
 /-- **C07 ⇒ lock-free readers are race free.**  If a table is race free and a set of locations is
 frozen in it (no write row after construction — for the `published:` locations, the contents of the
